@@ -155,7 +155,7 @@ def truth(v):
             return v.t != 0
         if v.k == "real":
             return v.t != 0
-        raise Unsupported("truth of a symbolic name")
+        return v.t != name_const("")   # a name is a python str: falsy iff empty
     if isinstance(v, (SymObj,)):
         return True
     if isinstance(v, SymSeq):
@@ -168,6 +168,25 @@ def truth(v):
 class NativeModel:
     """Objects of model helper classes: their methods run natively even with symbolic arguments and
     symbolic values may be stored in their attributes."""
+
+
+class SymStr(NativeModel):
+    """A python str built from symbolic parts (messages, derived names): opaque, equal only to itself."""
+
+    def __init__(self, parts):
+        self.parts = tuple(parts)
+
+    def __repr__(self):
+        return "SymStr%r" % (self.parts,)
+
+    def __add__(self, other):
+        return SymStr(self.parts + (other,))
+
+    def __radd__(self, other):
+        return SymStr((other,) + self.parts)
+
+    def format(self, *a, **k):
+        return SymStr(self.parts + a + tuple(k.values()))
 
 
 class Leaf(NativeModel):
